@@ -100,6 +100,39 @@ static void flat_case(const char *name, long n) {
   enum_end(n >= 64);
 }
 
+// heterogeneous lookups whose key is equivalent to a whole run of elements (transparent comparator)
+template <class S>
+static void wide_case(const char *name, long n, int width) {
+  typedef typename S::value_type E;
+  typedef typename S::key_compare Cmp;
+  char key[128];
+  snprintf(key, sizeof key, "flatset %s n=%ld wide-key width=%d", name, n, width);
+  if (!enum_begin(key)) return;
+  const unsigned long long B = 2ull * ceil_log2(static_cast<unsigned long>(n + 1)) + 4;
+  if (n >= 64) feature(0);
+  {
+    S s;
+    std::vector<E> src;
+    for (long i = 0; i < n; ++i) src.push_back(ET<E>::make(static_cast<int>(i)));
+    s.insert(src.begin(), src.end());
+    const S &cs = s;
+    for (int b = 0; b <= static_cast<int>(n / width) + 1 && !failed(); ++b) {
+      typename Cmp::Wide k = {b, width};
+      const long r = b;
+      unsigned long long c0;
+      ++g_probes;
+      COUNTED(cs.find(k), "find(wide key)");
+      COUNTED(cs.contains(k), "contains(wide key)");
+      COUNTED(cs.count(k), "count(wide key)");
+      COUNTED(cs.lower_bound(k), "lower_bound(wide key)");
+      COUNTED(cs.upper_bound(k), "upper_bound(wide key)");
+      long expect = std::max<long>(0, std::min<long>(n, static_cast<long>(b + 1) * width) - static_cast<long>(b) * width);
+      if (!failed() && static_cast<long>(cs.count(k)) != expect) violation(P19 | P03, "count(wide key %d/%d) is %ld, %ld elements are equivalent", b, width, static_cast<long>(cs.count(k)), expect);
+    }
+  }
+  enum_end(n >= 64);
+}
+
 template <class S, long N>
 static void small_case(const char *name, long fill) {
   typedef typename S::value_type E;
@@ -113,7 +146,10 @@ static void small_case(const char *name, long fill) {
     const S &cs = s;
     const unsigned long long B = 2ull * N + 2;
     const long n = fill;
-    for (int v = 0; v <= 2 * N + 1 && !failed(); ++v) {
+    // ascending then descending key order: erased keys are re-inserted at the end, so the two passes put smaller respectively
+    // larger elements in front of the key being looked up (two comparator calls for a smaller element, one for a larger)
+    for (int step = 0; step <= 2 * (2 * N + 2) - 1 && !failed(); ++step) {
+      const int v = step <= 2 * N + 1 ? step : 2 * (2 * N + 2) - 1 - step;
       const long r = v;
       E k(ET<E>::make(v));
       unsigned long long c0;
@@ -121,6 +157,19 @@ static void small_case(const char *name, long fill) {
       COUNTED(cs.find(k), "SmallSet::find (inline)");
       COUNTED(cs.contains(k), "SmallSet::contains (inline)");
       COUNTED(cs.count(k), "SmallSet::count (inline)");
+      // the position searches of erase-by-key, insert and emplace while the set stays inline are lookups too
+      bool present = cs.contains(k);
+      if (present) {
+        COUNTED(s.erase(k), "SmallSet::erase(key) (inline)");
+        COUNTED(s.insert(ET<E>::make(v)), "SmallSet::insert of an absent key (inline, not full)");
+        COUNTED(s.insert(ET<E>::make(v)), "SmallSet::insert of a present key (inline)");
+        COUNTED(s.emplace(v), "SmallSet::emplace of a present key (inline)");
+      } else if (fill < N) {
+        COUNTED(s.erase(k), "SmallSet::erase of an absent key (inline)");
+        COUNTED(s.emplace(v), "SmallSet::emplace of an absent key (inline, not full)");
+        c0 = calls();
+        s.erase(k);
+      }
     }
   }
   enum_end(fill >= 2);
@@ -153,6 +202,15 @@ int main(int argc, char **argv) {
   run_flat<amc::FlatSet<I, CGreater<I>, AStd<I>, amc::SmallVector<I, 4, AStd<I> > > >("greater/SmallVector4/int");
   run_flat<amc::FlatSet<TR, Coarse<TR>, AStd<TR>, std::vector<TR, AStd<TR> > > >("coarse/std::vector/TR");
   run_flat<amc::FlatSet<NTR, CLess<NTR>, AStd<NTR>, amc::vector<NTR, AStd<NTR> > > >("less/amc::vector/NTR");
+  {
+    typedef amc::FlatSet<I, TLess<I>, AStd<I>, amc::vector<I, AStd<I> > > TS;
+    static const long ns[] = {9, 33, 96, 300, 1000};
+    for (unsigned a = 0; a < 5; ++a) {
+      wide_case<TS>("transparent/amc::vector/int", ns[a], 4);
+      wide_case<TS>("transparent/amc::vector/int", ns[a], 64);
+      wide_case<TS>("transparent/amc::vector/int", ns[a], 100000);
+    }
+  }
   run_small<I, 1>("int");
   run_small<I, 2>("int");
   run_small<I, 4>("int");
